@@ -59,7 +59,8 @@ class NullCacher(Cacher[_K, _V]):
         pass
 
     def get_set(self, key: _K, getter: Union[Callable[[], _V],_V]) -> ContextManager[_V]:
-        return nullcontext(getter())
+        #as with the other cachers what is to be cached can be given directly instead of through a callable
+        return nullcontext(getter() if callable(getter) else getter)
 
 class MemoryCacher(Cacher[_K, _V]):
     """A cacher that caches in memory."""
@@ -186,24 +187,33 @@ class ConcurrentCacher(Cacher[_K, _V]):
 
     def get_set(self, key: _K, getter: Union[Callable[[],_V],_V]) -> ContextManager[_V]:
 
+        #we keep track of the lock that this call holds so that we only ever give back our own lock. The thread
+        #can hold another lock on the key already when it is inside the with block of an earlier get_set on it.
+        lock = None
+
         try:
             self._acquire_read_lock(key)
+            lock = 'read'
             if key in self._cache:
                 return self._release_read_on_exit(key,self._cache.get_set(key,None))
+            lock = None
             self._release_read_lock(key)
 
             self._acquire_write_lock(key)
+            lock = 'write'
             if key in self:#pragma: no cover; this is super hard to isolate so I'm just going to trust it...
                 self._switch_write_to_read_lock(key)
+                lock = 'read'
                 return self._release_read_on_exit(key,self._cache.get_set(key,None))
             else:
                 item = self._cache.get_set(key, getter)
                 self._switch_write_to_read_lock(key)
+                lock = 'read'
                 return self._release_read_on_exit(key,item)
         except:
             #not `except Exception`: a KeyboardInterrupt or SystemExit in the getter must release the lock as well
-            if self._has_read_lock(key): self._release_read_lock(key)
-            if self._has_write_lock(key): self._release_write_lock(key)
+            if lock == 'read' : self._release_read_lock(key)
+            if lock == 'write': self._release_write_lock(key)
             raise
 
     @contextmanager
